@@ -48,6 +48,7 @@ type run struct {
 	others []*simrt.Violation
 	stats  map[string]int
 	infra  string
+	shape  string
 }
 
 func newRun(prop string, tape *simrt.Tape, keep bool) *run {
